@@ -184,6 +184,58 @@ class Base:
         self.model = model_cell(0)
 
 
+class Acct:
+    """run accounting for sources whose elements are produced by a harness callback: element k is
+    produced by the k-th call (iterate: f applied to element k-1; repeatedly: k-th call of f;
+    counting iterable: k-th __next__)"""
+
+    def __init__(self):
+        import collections
+        self.started = collections.Counter()
+        self.returned = collections.Counter()
+        self.model_forced = set()
+        self.kinds = []
+
+    def ms(self, first_free, limit=None):
+        """model stream of 0 1 2 ..; forcing cell j marks producer j as demanded (cell 0 is free for
+        iterate: x itself); limit = length of a finite source (forcing the end marks producer `limit`)"""
+        def cell(j):
+            def thunk():
+                if not (first_free and j == 0):
+                    self.model_forced.add(j)
+                if limit is not None and j >= limit:
+                    return None
+                return (j, cell(j + 1))
+            return MS(thunk)
+        return cell(0)
+
+
+class CountingIterable:
+    def __init__(self, acct, n):
+        self.acct, self.n, self.iters = acct, n, 0
+
+    def __iter__(self):
+        self.iters += 1
+        acct, n = self.acct, self.n
+
+        class It:
+            def __init__(self):
+                self.k = 0
+
+            def __iter__(self):
+                return self
+
+            def __next__(self):
+                k = self.k
+                self.k += 1
+                acct.started[k] += 1
+                if k >= n:
+                    raise StopIteration
+                acct.returned[k] += 1
+                return k
+        return It()
+
+
 def build_pipeline(spec):
     """spec = {"source": [...], "stages": [[name, arg]..]} -> (real, model, bases)"""
     s = S()
@@ -193,6 +245,36 @@ def build_pipeline(spec):
         b = Base(src[1])
         bases.append(b)
         real, model = b.real, b.model
+    elif src[0] == "iterate":
+        a = Acct()
+        bases.append(a)
+
+        def f(x):
+            a.started[x + 1] += 1
+            a.returned[x + 1] += 1
+            return x + 1
+        real, model = s["take"](src[1], s["iterate"](f, 0)), ms_take(src[1], a.ms(True))
+    elif src[0] == "repeatedly":
+        a = Acct()
+        bases.append(a)
+        box = [0]
+
+        def g():
+            k = box[0]
+            box[0] += 1
+            a.started[k] += 1
+            a.returned[k] += 1
+            return k
+        real, model = s["take"](src[1], s["repeatedly"](g)), ms_take(src[1], a.ms(False))
+    elif src[0] == "counting-iterable":
+        a = Acct()
+        bases.append(a)
+        ci = CountingIterable(a, src[1])
+        real, model = s["seq"](ci), a.ms(False, limit=src[1])
+        # (seq coll) itself demands the first cell
+        model.force()
+        if real is None:
+            real = s["lseq"].EMPTY
     elif src[0] == "pylist":
         real, model = s["seq"](list(src[1])), ms_from_list(list(src[1]))
         if real is None:
@@ -344,10 +426,12 @@ def run_history(rec, spec, ops, count=True):
                 raise Violation(f"wrong-elements:{name}", case, f"step {step} {op}: got {got!r}, reference {want!r}")
         # at-most-once and demand
         for bi, b in enumerate(bases):
-            for i, k in enumerate(b.returned):
+            ret = dict(enumerate(b.returned)) if isinstance(b.returned, list) else dict(b.returned)
+            sta = dict(enumerate(b.started)) if isinstance(b.started, list) else dict(b.started)
+            for i, k in sorted(ret.items()):
                 if k > 1:
                     raise Violation("producer-ran-more-than-once", case, f"base {bi} cell {i}: {k} completed runs")
-            real_forced = {i for i, k in enumerate(b.started) if k > 0}
+            real_forced = {i for i, k in sta.items() if k > 0}
             extra = real_forced - b.model_forced
             if extra:
                 raise Violation("computed-beyond-demand", case,
@@ -421,20 +505,29 @@ def child_body(case):
     head_box["head"] = head
     obs = {}
 
+    def entry():
+        w = case.get("wrap", "none")
+        if w == "own-outer":          # each consumer reaches the shared cells through its own outer lazy seq
+            return s["lseq"].LazySeq(lambda: head)
+        if w == "own-map":            # ... or through its own lazy pipeline over the shared cells
+            return s["map"](s["identity"], head)
+        return head
+
     def consumer(ci, style):
         try:
+            mine = entry()
             if style == "iter":
-                obs[ci] = ["ok", list(iter(head))]
+                obs[ci] = ["ok", list(iter(mine))]
             elif style == "count":
-                obs[ci] = ["ok", s["count"](head)]
+                obs[ci] = ["ok", s["count"](mine)]
             elif style == "first-rest":
-                out, cur = [], head
+                out, cur = [], mine
                 while s["seq"](cur) is not None:
                     out.append(s["first"](cur))
                     cur = s["rest"](cur)
                 obs[ci] = ["ok", out]
             else:
-                obs[ci] = ["ok", list(s["doall"](s["map"](s["identity"], head)) or [])]
+                obs[ci] = ["ok", list(s["doall"](s["map"](s["identity"], mine)) or [])]
         except Boom:
             obs[ci] = ["raise", "Boom"]
         except BaseException as e:  # noqa
@@ -464,6 +557,8 @@ def cpu_ticks(pid):
         for tid in os.listdir(f"/proc/{pid}/task"):
             with open(f"/proc/{pid}/task/{tid}/stat") as fh:
                 parts = fh.read().rsplit(")", 1)[1].split()
+                if parts[0] in ("R", "D"):
+                    return None        # a thread that is runnable (or in I/O) is not blocked, however starved it is
                 total += int(parts[11]) + int(parts[12])
     except OSError:
         return None
@@ -542,7 +637,10 @@ def check_thread_case(rec, case):
         raise Violation("child-crashed", c, str(info))
     rep = info
     if any(rep["alive"]):
-        raise Violation("consumer-never-finished", c, f"{rep}")
+        # the child's own join ran out of time although its threads were not quiescent (the watchdog would have
+        # said deadlock): a starved machine, not a verdict
+        rec.inconclusive += 1
+        return
     n = len(case["cells"])
     throw_at = next((i for i, k in enumerate(case["cells"]) if k == "throw"), None)
     want = ["raise", "Boom"] if throw_at is not None else None
@@ -569,7 +667,9 @@ def specs():
         lambda ks: [k if (k != "throw" or i == max(j for j, x in enumerate(ks) if x == "throw")) else "val" for i, k in enumerate(ks)])
     source = st.one_of(cells.map(lambda ks: ["cells", ks]), cells.map(lambda ks: ["cells", ks]),
                        st.lists(st.integers(0, 9), max_size=6).map(lambda xs: ["pylist", xs]), st.lists(st.integers(0, 9), max_size=6).map(lambda xs: ["vector", xs]),
-                       st.lists(st.integers(0, 9), max_size=6).map(lambda xs: ["generator", xs]), st.integers(0, 7).map(lambda n: ["range", n]))
+                       st.lists(st.integers(0, 9), max_size=6).map(lambda xs: ["generator", xs]), st.integers(0, 7).map(lambda n: ["range", n]),
+                       st.integers(0, 7).map(lambda n: ["iterate", n]), st.integers(0, 7).map(lambda n: ["repeatedly", n]),
+                       st.integers(0, 7).map(lambda n: ["counting-iterable", n]))
     stage = st.one_of(st.tuples(st.just("map"), st.none()), st.tuples(st.just("filter"), st.none()), st.tuples(st.just("filter-odd"), st.none()),
                       st.tuples(st.just("take"), st.integers(0, 5)), st.tuples(st.just("drop"), st.integers(0, 4)),
                       st.tuples(st.just("concat"), st.integers(0, 3)), st.tuples(st.just("concat-front"), st.integers(0, 3))).map(list)
@@ -591,6 +691,7 @@ def thread_cases():
         "consumers": st.lists(st.sampled_from(["iter", "count", "first-rest", "doall"]), min_size=2, max_size=3),
         "gate_order": st.permutations([0, 1, 2, 3, 4]),
         "stagger": st.sampled_from([0, 0, 1, 3]),
+        "wrap": st.sampled_from(["none", "none", "own-outer", "own-map"]),
     })
 
 
@@ -612,13 +713,13 @@ def shard(i, n, tier, seed, findings):
     for kinds in itertools.product(["plain", "yield", "gate"], repeat=3):
         gs = [idx for idx, x in enumerate(kinds) if x == "gate"]
         for order in (itertools.permutations(gs) if gs else [()]):
-            for cons in (["iter", "first-rest"], ["count", "doall"]):
+            for cons, wrap in ((["iter", "first-rest"], "none"), (["count", "doall"], "none"), (["iter", "count"], "own-outer"), (["first-rest", "doall"], "own-map")):
                 k += 1
                 if k % n != i:
                     continue
                 if tier == "quick" and (k // n) % 2 == 1:
                     continue
-                guard(check_thread_case, {"cells": list(kinds), "consumers": cons, "gate_order": list(order), "stagger": 0})
+                guard(check_thread_case, {"cells": list(kinds), "consumers": cons, "gate_order": list(order), "stagger": 0, "wrap": wrap})
     rec.exhaustive["2-consumers-x-3-cells-gate-scripts"] = tier == "thorough"
 
     hyp.drive(lambda c: run_history(rec, c[0], c[1]), st.tuples(specs(), histories()), rec=rec, findings=findings, seed=seed * 1000 + i,
